@@ -281,9 +281,10 @@ Proof.
   specialize (H3 i Hin). apply Nat.ltb_lt in H3. exact H3.
 Qed.
 
-Theorem r_step_accept c L r ch r' it : safe_cfg c = true -> LogInv (c_cells c) L -> (Z.of_nat (evens L) < 32767)%Z ->
+Theorem r_step_accept_pos c L r ch r' it : safe_cfg c = true -> LogInv (c_cells c) L -> (Z.of_nat (evens L) < 32767)%Z ->
   RInv c L r -> r_step c L r ch = Some (r', it, Some RetFresh) ->
-  exists a q e, 0 < a /\ ev L q = Some e /\ e_kind e = KEven /\ e_att e = a /\ r_cache r' = rec_of (c_cells c) a.
+  exists e, ev L (r_g1pos r) = Some e /\ e_loc e = LGen /\ e_kind e = KEven /\ 0 < e_att e /\
+            r_cache r' = rec_of (c_cells c) (e_att e) /\ r_g1pos r <= coh_gen (r_view r').
 Proof.
   intros Hs LI NW (Hcu & Hac & H) S. destruct (safe_parts c Hs) as (_ & _ & _ & _ & _ & _ & Pr & Hn).
   destruct (accept_needs_equal_even c L r ch r' it S) as (g & acc & b & v & p & PC & D).
@@ -300,16 +301,26 @@ Proof.
   assert (Hval : e_val e2 = e_val e1) by (rewrite Ev1; symmetry; exact Xv).
   destruct (accept_one_attempt (c_cells c) L (r_g1pos r) e1 cur1 (cur (r_view r)) p e2 (r_cellpos r)
               LI NW E1 El1 Hev1 Hnz1 Hr1 Hc1 Hcells' Hlt Lg Hq12 E2 Hval) as (A1 & K1 & Hvals).
-  exists (e_att e1), (r_g1pos r), e1. split; [exact A1|]. split; [exact E1|]. split; [exact K1|]. split; [reflexivity|].
-  (* the cache after the accepting step *)
-  assert (Ecache : r_cache r' = assemble (c_cells c) acc).
-  { unfold r_step in S. rewrite PC, D, Z.eqb_refl in S. inversion S. reflexivity. }
+  exists e1. split; [exact E1|]. split; [exact El1|]. split; [exact K1|]. split; [exact A1|].
+  (* the cache and the view after the accepting step *)
+  assert (Ecache : r_cache r' = assemble (c_cells c) acc /\ r_view r' = v).
+  { unfold r_step in S. rewrite PC, D, Z.eqb_refl in S. inversion S. split; reflexivity. }
+  destruct Ecache as [Ecache Ev'].
+  split; [|rewrite Ev'; apply do_read_spec in D as (e3 & E3 & _ & _ & _ & Co3 & _ & _ & Cg3); rewrite Cg3; cbn in Co3; lia].
   rewrite Ecache. apply assemble_rec.
   - intros i Hi. pose proof (is_perm_all _ _ Pr i Hi) as Hin. rewrite <- Hord in Hin. apply in_rev in Hin.
     apply in_map_iff in Hin as ([i' q] & Ei & Hin). cbn in Ei. subst i'.
     exists (val_at L q). rewrite Hacc. apply in_map_iff. exists (i, q). auto.
   - intros i x Hin. rewrite Hacc in Hin. apply in_map_iff in Hin as ([i' q] & Eq & Hin). cbn in Eq. inversion Eq; subst i' x.
     apply (Hvals i q Hin).
+Qed.
+
+Theorem r_step_accept c L r ch r' it : safe_cfg c = true -> LogInv (c_cells c) L -> (Z.of_nat (evens L) < 32767)%Z ->
+  RInv c L r -> r_step c L r ch = Some (r', it, Some RetFresh) ->
+  exists a q e, 0 < a /\ ev L q = Some e /\ e_kind e = KEven /\ e_att e = a /\ r_cache r' = rec_of (c_cells c) a.
+Proof.
+  intros Hs LI NW RI S. destruct (r_step_accept_pos c L r ch r' it Hs LI NW RI S) as (e & E & _ & K & A & C & _).
+  exists (e_att e), (r_g1pos r), e. auto.
 Qed.
 
 (* ------------------------------------------------------------------ the cached record *)
